@@ -68,7 +68,8 @@ def judge(run, rec):
 
 def explore(run, scale=1):
     n = N[run.tier] * scale
-    spec = [(n * 7 // 10, None, "history"), (n * 3 // 10, dict(aggregates=False), "history")]
+    spec = [(n * 7 // 10, None, "history"), (n * 3 // 10, dict(aggregates=False), "history"),
+            (max(6, n // 60), dict(aggregates=False, long=True), "history")]       # 450-700 operations, most on one VM
     for rec in progfam.evaluate(run, "C15", spec, want=("ref", "model", "opt")):
         judge(run, rec)
 
